@@ -445,3 +445,112 @@ def emit(g, name):
     return ("Definition %s_sizes : list nat := [%s].\n" % (name, "; ".join(str(s) for _, s in g.regions)) +
             "Definition %s_regions : list string := [%s].\n" % (name, "; ".join('"%s"' % n for n, _ in g.regions)) +
             "Definition %s : list stmt := [\n  %s\n].\n" % (name, ";\n  ".join(g.stmts)))
+
+# ----------------------------------------------------------------------
+# kernel table and obligation files
+OPAQUE = {"skinny128_sbox": 0, "skinny128_inv_sbox": 1, "skinny64_sbox": 2, "skinny64_inv_sbox": 3, "mantis_sbox": 4}
+FULL = ("poly pxor pand pzero pone", "bool xorb andb false true")
+XZ = ("poly pxor pzero", "bool xorb false")
+Z = ("poly pzero", "bool false")
+XZO = ("poly pxor pzero pone", "bool xorb false true")
+# (C file, function, kind, spec, spec argument lists)
+PURE = [
+    ("skinny128-cipher.c", "skinny128_sbox", "k_sbox128", FULL), ("skinny128-cipher.c", "skinny128_inv_sbox", "k_inv_sbox128", FULL),
+    ("skinny128-cipher.c", "skinny128_LFSR2", "k_lfsr2_128", XZ), ("skinny128-cipher.c", "skinny128_LFSR3", "k_lfsr3_128", XZ),
+    ("skinny64-cipher.c", "skinny64_sbox", "k_sbox64", FULL), ("skinny64-cipher.c", "skinny64_inv_sbox", "k_inv_sbox64", FULL),
+    ("skinny64-cipher.c", "skinny64_LFSR2", "k_lfsr2_64", XZ), ("skinny64-cipher.c", "skinny64_LFSR3", "k_lfsr3_64", XZ),
+    ("mantis-cipher.c", "mantis_sbox", "k_mantis_sbox", FULL),
+]
+CELLS = [
+    ("skinny128-cipher.c", "skinny128_permute_tk", "k_permute_tk128", Z), ("skinny64-cipher.c", "skinny64_permute_tk", "k_permute_tk64", Z),
+    ("mantis-cipher.c", "mantis_update_tweak", "k_mantis_h", Z), ("mantis-cipher.c", "mantis_update_tweak_inverse", "k_mantis_h_inv", Z),
+    ("mantis-cipher.c", "mantis_shift_rows", "k_mantis_P", Z), ("mantis-cipher.c", "mantis_shift_rows_inverse", "k_mantis_P_inv", Z),
+    ("mantis-cipher.c", "mantis_mix_columns", "k_mantis_mix", XZ),
+]
+# round bodies: (file, function, name, binds, order of layers, [(spec, args)...], composition lemma)
+ROUNDS = [
+    ("skinny128-cipher.c", "skinny128_ecb_encrypt", "enc128_round",
+     {"state": ("state", "Skinny128Cells_t"), "schedule": ("sched", "Skinny128HalfCells_t *")},
+     "CL", [("k128_subcells", FULL), ("k128_enc_linear", XZO)], "k128_round_is_spec_bool"),
+    ("skinny128-cipher.c", "skinny128_ecb_decrypt", "dec128_round",
+     {"state": ("state", "Skinny128Cells_t"), "schedule": ("sched", "Skinny128HalfCells_t *")},
+     "LC", [("k128_dec_linear", XZO), ("k128_subcells_inv", FULL)], "k128_round_inv_is_spec_bool"),
+    ("skinny64-cipher.c", "skinny64_ecb_encrypt", "enc64_round",
+     {"state": ("state", "Skinny64Cells_t"), "schedule": ("sched", "Skinny64HalfCells_t *")},
+     "CL", [("k64_subcells", FULL), ("k64_enc_linear", XZO)], "k64_round_is_spec_bool"),
+    ("skinny64-cipher.c", "skinny64_ecb_decrypt", "dec64_round",
+     {"state": ("state", "Skinny64Cells_t"), "schedule": ("sched", "Skinny64HalfCells_t *")},
+     "LC", [("k64_dec_linear", XZO), ("k64_subcells_inv", FULL)], "k64_round_inv_is_spec_bool"),
+]
+
+def is_call_stmt(s):
+    m = re.match(r"SStore (\d+) (\d+) (\d+) \(ECall \d+ \(ELoad (\d+) (\d+) (\d+)\)\)$", s)
+    return bool(m) and m.group(1, 2, 3) == m.group(4, 5, 6)
+
+def main():
+    repo, outv, cfgname = sys.argv[1], sys.argv[2], sys.argv[3]
+    flags = sys.argv[4:]
+    tus = {}
+    def tu(f):
+        if f not in tus: tus[f] = TU(repo, f, flags)
+        return tus[f]
+    out = ["(* GENERATED by translator/c2ir.py from %s/src (configuration %s: %s) — kernels of the current source as IR programs," % (repo, cfgname, " ".join(flags) or "default"),
+           "   and the obligations that each equals its specification step for ALL inputs (reflective check + soundness theorem). *)",
+           "From Coq Require Import List String Bool NArith Arith.",
+           "From Skinny Require Import Bits SpecSkinny SpecMantis IR Anf IRCheck KernelSpecs KernelHom.",
+           "Import ListNotations.", "Open Scope string_scope.", ""]
+    names = []
+    def obligations(name, g, spec, args):
+        sizes = "%s_sizes" % name
+        return ["Theorem %s_wf : wf_prog %s %s = true. Proof. vm_compute. reflexivity. Qed." % (name, sizes, name),
+                "Theorem %s_check : check_kernel (callf_spec poly pxor pand pzero pone) %s %s (%s %s) = true." % (name, sizes, name, spec, args[0]),
+                "Proof. vm_compute. reflexivity. Qed.",
+                "Theorem %s_correct : forall m : mem bool, shaped %s m ->" % (name, sizes),
+                "  fst (execB (callf_spec bool xorb andb false true) %s (m, [])) = %s %s m." % (name, spec, args[1]),
+                "Proof. exact (check_kernel_sound _ _ _ _ _ _ callf_spec_hom (%s_hom _) %s_check). Qed." % (spec, name), ""]
+    for cfile, fn, spec, args in PURE:
+        g = kernel_pure(tu(cfile), fn, {})
+        out.append(emit(g, fn)); out += obligations(fn, g, spec, args); names.append(fn)
+    for cfile, fn, spec, args in CELLS:
+        g = kernel_cells(tu(cfile), fn, {})
+        out.append(emit(g, fn)); out += obligations(fn, g, spec, args); names.append(fn)
+    for cfile, fn, name, binds, order, specs, comp in ROUNDS:
+        g = kernel_loop(tu(cfile), fn, 0, binds, OPAQUE)
+        flagsq = [is_call_stmt(s) for s in g.stmts]
+        # the body must be one run of S-box calls and one run of other statements, in the expected order
+        k = flagsq.index(order[1] == "C") if (order[1] == "C") in flagsq else len(flagsq)
+        first, second = g.stmts[:k], g.stmts[k:]
+        ok = all(is_call_stmt(s) == (order[0] == "C") for s in first) and all(is_call_stmt(s) == (order[1] == "C") for s in second) and first and second
+        if not ok:
+            raise Unsupported("%s: the loop body is not [%s] as expected (S-box calls must form one layer)" % (fn, order))
+        out.append(emit(g, name))
+        sizes = "%s_sizes" % name
+        for i, (seg, (spec, args)) in enumerate(zip((first, second), specs)):
+            sn = "%s_seg%d" % (name, i)
+            out.append("Definition %s : list stmt := [\n  %s\n]." % (sn, ";\n  ".join(seg)))
+            out.append("Theorem %s_check : check_kernel (callf_spec poly pxor pand pzero pone) %s %s (%s %s) = true." % (sn, sizes, sn, spec, args[0]))
+            out.append("Proof. vm_compute. reflexivity. Qed.")
+        s0, s1 = specs
+        out += ["Theorem %s_split : %s = (%s_seg0 ++ %s_seg1)%%list. Proof. reflexivity. Qed." % (name, name, name, name),
+                "Theorem %s_wf : wf_prog %s %s = true. Proof. vm_compute. reflexivity. Qed." % (name, sizes, name),
+                "Theorem %s_closed : locals_closed %s_seg1 = true. Proof. vm_compute. reflexivity. Qed." % (name, name),
+                "Theorem %s_bounds : stores_in_bounds %s %s_seg0 = true. Proof. vm_compute. reflexivity. Qed." % (name, sizes, name),
+                "Theorem %s_correct : forall m : mem bool, shaped %s m ->" % (name, sizes),
+                "  fst (execB (callf_spec bool xorb andb false true) %s (m, [])) = %s %s (%s %s m)." % (name, s1[0], s1[1][1], s0[0], s0[1][1]),
+                "Proof.",
+                "  intros m Hm. rewrite %s_split." % name,
+                "  exact (check_two_segments _ _ _ _ _ _ _ _ _ callf_spec_hom (%s_hom _) (%s_hom _) %s_seg0_check %s_seg1_check %s_closed %s_bounds m Hm)."
+                % (s0[0], s1[0], name, name, name, name),
+                "Qed.", ""]
+        names.append(name)
+    out.append("Definition kernel_names : list string := [%s]." % "; ".join('"%s"' % n for n in names))
+    for n in names:
+        out.append("Print Assumptions %s_correct." % n)
+    open(outv, "w").write("\n".join(out) + "\n")
+    print("%s: %d kernels" % (cfgname, len(names)))
+
+if __name__ == "__main__":
+    try:
+        main()
+    except Unsupported as e:
+        sys.stderr.write("c2ir: unsupported construct: %s\n" % e); sys.exit(3)
